@@ -568,7 +568,8 @@ class Parser:
 
     def parse_type_and_quals(self, cdecl):
         ast, macros = self._parse('void __dummy(\n%s\n);' % cdecl)[:2]
-        assert not macros
+        if macros:
+            raise CDefError("unexpected '#define' in a type string")
         exprnode = ast.ext[-1].type.args.params[0]
         if isinstance(exprnode, pycparser.c_ast.ID):
             raise CDefError("unknown identifier '%s'" % (exprnode.name,))
